@@ -12,7 +12,9 @@ package main
 import (
 	"bytes"
 	"fmt"
+	"os"
 	"runtime"
+	"sort"
 	"strconv"
 	"sync"
 	"time"
@@ -64,6 +66,13 @@ func (g *gate) parked() []*parkedG {
 	g.mu.Lock()
 	r := append([]*parkedG(nil), g.waiting...)
 	g.mu.Unlock()
+	// arrival order is a race between goroutines; a canonical order keeps the run a function of the seed
+	sort.Slice(r, func(i, j int) bool {
+		if r[i].kind != r[j].kind {
+			return r[i].kind < r[j].kind
+		}
+		return bytes.Compare(r[i].key, r[j].key) < 0
+	})
 	return r
 }
 
@@ -79,7 +88,22 @@ func (g *gate) releaseOne(p *parkedG) {
 	close(p.release)
 }
 
-const settleTimeout = 30 * time.Second
+const settleTimeout = 60 * time.Second
+
+// wait reasons of goroutines that cannot continue by themselves; every other state (running, runnable,
+// preempted, sleep, syscall, GC assist ...) means the goroutine may still make progress
+var blockedState = map[string]bool{
+	"chan receive": true, "chan send": true, "select": true, "select (no cases)": true,
+	"chan receive (nil chan)": true, "chan send (nil chan)": true,
+	// not "semacquire": a goroutine that wants to start a GC cycle waits for the world semaphore that our own
+	// runtime.Stack(all) holds
+	"sync.Mutex.Lock": true, "sync.RWMutex.RLock": true, "sync.RWMutex.Lock": true,
+	"sync.Cond.Wait": true, "sync.WaitGroup.Wait": true, "IO wait": true, "finalizer wait": true,
+	"GC worker (idle)": true, "force gc (idle)": true, "GC sweep wait": true, "GC scavenge wait": true,
+}
+
+var lastSettle []byte
+var settleLog []string
 
 // settle returns when every goroutine other than the caller is blocked
 func settle() error {
@@ -107,15 +131,25 @@ func settle() error {
 				continue
 			}
 			st := string(blk[i+1 : j])
-			switch st {
-			case "running", "runnable", "sleep", "syscall":
+			if !blockedState[st] {
 				busy = st
-			}
-			if busy != "" {
 				break
 			}
 		}
 		if busy == "" {
+			lastSettle = append(lastSettle[:0], buf[:n]...)
+			if os.Getenv("VH_DEBUG") != "" {
+				hs := ""
+				for _, blk := range bytes.Split(buf[:n], []byte("\n\n")) {
+					if k := bytes.IndexByte(blk, '\n'); k > 0 && !bytes.Contains(blk, []byte("trieStorageManager.go:106")) {
+						hs += string(blk[:k]) + " | "
+					}
+				}
+				settleLog = append(settleLog, hs)
+				if len(settleLog) > 12 {
+					settleLog = settleLog[1:]
+				}
+			}
 			return nil
 		}
 		if time.Now().After(deadline) {
